@@ -160,11 +160,11 @@ func (b *Buffer) Commit(dig ociregistry.Digest) (_ ociregistry.Descriptor, err e
 		b.commitErr = err
 		return ociregistry.Descriptor{}, err
 	}
-	return ociregistry.Descriptor{
-		MediaType: "application/octet-stream",
-		Size:      int64(len(b.buf)),
-		Digest:    dig,
-	}, nil
+	// Return the descriptor that checkCommit verified, reading
+	// it with the lock held (a concurrent Write might be appending to b.buf).
+	b.mu.Lock()
+	defer b.mu.Unlock()
+	return b.desc, nil
 }
 
 func (b *Buffer) checkCommit(dig ociregistry.Digest) (err error) {
